@@ -25,6 +25,16 @@ def verify_function(qualname, timeout_ms=10000, want_smt2=False):
     out = {"function": qualname, "status": "ok", "obligations": []}
     try:
         reg = build_registry()
+        if qualname.startswith("schema:"):
+            import z3
+            from contracts import sd_inv
+            from .engine import Obl
+            f = sd_inv.schema_lemmas()[qualname[len("schema:"):]]
+            o = Obl("lemma." + qualname[len("schema:"):], [], f, 0, "lemma")
+            out["obligations"].append(solve.check(o, axioms=[], timeout_ms=timeout_ms))
+            out["source"] = {"function": qualname, "file": "contracts/sd_inv.py (schema lemma proved by SMT)"}
+            out["seconds"] = round(time.time() - t0, 3)
+            return out
         c = reg.contracts[qualname]
         fn = extract.extract(qualname)
         out["source"] = fn.describe()
@@ -67,7 +77,8 @@ def main():
     ap.add_argument("-v", action="store_true")
     a = ap.parse_args()
     reg = build_registry()
-    names = [q for q, c in reg.contracts.items() if not c.trusted and a.only in q]
+    from contracts import sd_inv
+    names = [q for q, c in reg.contracts.items() if not c.trusted and a.only in q] + ["schema:" + n for n in sd_inv.schema_lemmas() if a.only in "schema:" + n]
     res = run(names, a.jobs, a.timeout_ms)
     bad = 0
     for r in res:
